@@ -107,6 +107,7 @@ type job struct {
 	ops      []op
 	depthQ   int
 	depthT   int
+	maxQ     int // > 0: a frame is pushed to a stream only while fewer than maxQ are queued on it (keeps deep jobs finite)
 }
 
 func (j *job) newSched() http2.WriteScheduler {
@@ -207,6 +208,14 @@ func jobs() []*job {
 		js = append(js, &job{name: sched + "/ring", sched: sched, maxFrame: 16384, initSW: 3, initCW: 8,
 			ops:    flowOps(u(1, 3, 5), []int{5}, nil, []int32{0, 8}, u(7), nil),
 			depthQ: d[2][0], depthT: d[2][1]})
+		// recycling: streams come and go while frames are half written (queues return to the pool and are handed out
+		// again); only open / close / one DATA size that splits in two / pop, at most two frames queued per stream, deep
+		js = append(js, &job{name: sched + "/recycle", sched: sched, maxFrame: 2, initSW: 1000, initCW: 100000, maxQ: 2,
+			ops:    []op{mkOpen(1, 0), mkOpen(3, 0), mkOpen(5, 0), mkClose(1), mkClose(3), mkClose(5), mkD(1, 4, false), mkD(3, 4, false), mkD(5, 4, false), mkPop()},
+			depthQ: map[string]int{"rr": 13, "random": 11}[sched], depthT: map[string]int{"rr": 16, "random": 11}[sched]})
+		// (random: a history is replayed until Go's map iteration reproduces its Pop choices; with two candidates the
+		// less likely one has probability 1/8, so histories with many such Pops cannot be replayed - depth 11 is what
+		// 200 000 attempts reproduce reliably)
 		js = append(js, &job{name: sched + "/edge-windows", sched: sched, maxFrame: 3, initSW: 1, initCW: 2,
 			ops:    flowOps(u(1, 3), []int{0, 2, 4}, []int32{-1, 5}, []int32{-2, 1, 6}, nil, []op{mkMF(1), mkMF(16384)}),
 			depthQ: d[3][0], depthT: d[3][1]})
@@ -283,7 +292,12 @@ func (s *sys) enabled(o *op) bool {
 			return false
 		}
 		return true
-	case opClose, opPushH, opPushD, opSetSW:
+	case opPushH, opPushD:
+		if st != schedref.Open {
+			return false
+		}
+		return s.j.maxQ == 0 || len(s.ref.Streams[o.s].Q) < s.j.maxQ
+	case opClose, opSetSW:
 		return st == schedref.Open
 	}
 	return true
@@ -705,7 +719,7 @@ func (s *sys) drain() (pops int, vi *violation) {
 
 // ---- histories ---------------------------------------------------------------------------------------------------------
 
-const maxDepth = 10
+const maxDepth = 16
 
 type hist []byte // 2 bytes per step: op index, Pop choice
 
